@@ -618,7 +618,9 @@ def commentdoc(text):
     commentlines = []
     for line in text.splitlines():
         alternating_words_ws = list(filter(None, WHITESPACE_PATTERN_TEXT.split(line)))
+        # A blank line has no parts at all.
         starts_with_whitespace = bool(
+            alternating_words_ws and
             WHITESPACE_PATTERN_TEXT.match(alternating_words_ws[0])
         )
 
